@@ -157,6 +157,11 @@ func fixedHistories() []*History {
 		{T: "memset", R: 0, KV: [][2]int{{0, 0}, {1, 1}}, H: 1}, g,
 		{T: "memset", R: 2, H: 2}, g,
 		{T: "commit", R: 2}, g, {T: "count"}, {T: "restart"}, g}})
+	// finding 2: through the queue, the commit of an empty update of the nil hash is
+	// answered ErrHashNotFound although it is carried out (the second one finds nothing)
+	out = append(out, &History{Kind: "witness-kf2", Queue: true, Keys: k, Vals: vv, Ops: []Op{
+		{T: "memset", R: 0, H: 1}, {T: "commit", R: 0}, {T: "commit", R: 0},
+		{T: "memset", R: 0, H: 1}, {T: "rollback", R: 0}, {T: "rollback", R: 0}, {T: "get", R: 0}}})
 	// forks: parent P = token 2 (set), forks A = 3, B = 4
 	acts := []string{"commit", "rollback"}
 	for _, a1 := range acts {
